@@ -1,34 +1,38 @@
 (* Rewrite.v - slice regex (property C18): the TEXTUAL rewrite libyang applies to a YANG pattern
    before the text is handed to pcre2_compile(). Model only; proofs are in RewriteP.v.
 
-   Transcribed C (src/schema_compile_node.c):
+   Transcribed C (src/schema_compile_node.c, as of commits 0ef0929 and 97840a6):
      lys_compile_type_pattern_check()               -> esc_pass, rewrite
      lys_compile_pattern_chblocks_xmlschema2perl()  -> chblocks_step, chblocks
-   The model is what the code DOES, including its defects:
-     (D1) a '^' or '$' outside brackets gets a backslash inserted in front of it even when it is
-          already escaped (the switch case for '$'/'^' never looks at [escaped]), so a\^b becomes
-          a\\^b: an escaped backslash followed by an anchor instead of a literal caret.
-     (D2) in the block substitution the variable idx that holds the index of the block found in
-          ublock2urange is overwritten by the bracket-depth counter before it is used, so the range
-          written is the one of table entry number (bracket depth): BasicLatin outside brackets,
-          Latin-1Supplement inside one bracket, ... whatever block was named.
-     (D3) the bracket-depth counter of the second function treats a bracket as escaped when the
-          PREVIOUS BYTE is a backslash (the first function tracks escaping properly), so after
-          an escaped backslash the two disagree; the counter is a size_t that can wrap below zero
-          and is then used as an index into the 85 entry table: out-of-bounds read (modelled as
-          Err 4; also depth 84 = the NULL terminator entry and anything deeper).
-     (D4) the block name is compared with strncmp(..., strlen(table name)), i.e. the table name only
-          has to be a PREFIX of the text after \p{Is; it only decides unknown-block errors (D2).
+   The model is what the code DOES, including its remaining defects:
+     (D3) the bracket counter [brack] of the second function treats a bracket as escaped when the
+          PREVIOUS BYTE is a backslash (the first function tracks escaping properly), so after an
+          escaped backslash the two disagree: in \\[a]\p{IsGreek} the counter is -1 at the block (the
+          size_t wraps, which is defined behaviour and only makes it non-zero) and the range is
+          written without its brackets although the block stands outside brackets.
+     (D4) the block name is compared with strncmp(..., strlen(table name)), i.e. the FIRST table
+          entry whose name is a PREFIX of the text after \p{Is is taken: \p{IsGreekExtended} is
+          replaced by the range of Greek (entry 7 stands before entry 38), \p{IsGreekFoo} is accepted.
+     (D5) the replacement text of the entry Specials is 28 bytes long but URANGE_LEN = 19 bytes are
+          copied (17 inside brackets), so the text written is cut in the middle of a range.
+   Fixed since the first transcription (and no longer in the model): (D1) a second backslash in front
+   of an already escaped '^' / '$'; (D2) the block index overwritten by the bracket counter, which
+   also was the only undefined behaviour (table index out of range, formerly Err 4).
+   No undefined behaviour is left in the two functions: every index into perl_regex is below the
+   allocated size (size = strlen + 1 + number of inserted backslashes; the realloc before a block
+   substitution adds URANGE_LEN - (end - start) when the block text is shorter than the range),
+   perl_regex[idx2 - 1] is guarded by !idx2, the table index is the one found by the name loop
+   (< 84) and memcpy reads URANGE_LEN bytes of strings that are at least that long.
    Patterns are C strings: the model assumes the pattern contains no 0 byte.
    Error classes: Err 1 = stray ']' ; Err 2 = unterminated \p{Is ; Err 3 = unknown block name ;
-   Err 4 = undefined behaviour in C (table index out of range) ; Err 9 = model fuel exhausted
-   (never happens: every iteration removes one occurrence of \p{Is and creates none). *)
+   Err 9 = model fuel exhausted (never happens, RewriteP.rewrite_result: every iteration removes one
+   occurrence of \p{Is and creates none). *)
 From LY Require Import Base.
 Local Open Scope N_scope.
 
 (* the table ublock2urange[][2] of lys_compile_pattern_chblocks_xmlschema2perl() without its
    {NULL, NULL} terminator: (block name, replacement text). Transcribed by script from the C
-   source; every entry is exercised by the Rewrite correspondence (bracket depth = entry number). *)
+   source; every entry is exercised by the Rewrite correspondence (every name, bare and inside brackets). *)
 Definition ublock2urange : list (bytes * bytes) := [
   (* 0 BasicLatin *)
   ([66; 97; 115; 105; 99; 76; 97; 116; 105; 110],
@@ -284,11 +288,12 @@ Definition ublock2urange : list (bytes * bytes) := [
    [91; 92; 120; 123; 70; 69; 70; 70; 125; 124; 92; 120; 123; 70; 70; 70; 48; 125; 45; 92; 120; 123; 70; 70; 70; 68; 125; 93])
 ].
 
+
 Definition URANGE_LEN : nat := 19.
 
 (* ---- lys_compile_type_pattern_check(): the while loop over orig_ptr ----------------------------
    brack   = number of unescaped '[' minus unescaped ']' seen so far (size_t, cannot overflow: it is
-             bounded by the pattern length),
+             bounded by the pattern length; never decremented at 0: that is the Err 1 exit),
    escaped = the previous byte was an unescaped backslash.
    The result is the text written to perl_regex, or Err 1 for the LY_EVALID exit. *)
 Definition is_anchor (c : N) : bool := (c =? 36) || (c =? 94).      (* '$' '^' *)
@@ -299,9 +304,9 @@ Fixpoint esc_pass (brack : N) (escaped : bool) (p : bytes) : res bytes :=
   | c :: p' =>
       if c =? 92 then                                               (* case '\\': toggle, copy, continue *)
         bind (esc_pass brack (negb escaped) p') (fun o => Ok (92 :: o))
-      else if is_anchor c then                                      (* case '$': case '^': *)
+      else if is_anchor c then                                      (* case '$': case '^': if (!brack && !escaped) *)
         bind (esc_pass brack false p')
-             (fun o => Ok (if brack =? 0 then 92 :: c :: o else c :: o))
+             (fun o => Ok (if (brack =? 0) && negb escaped then 92 :: c :: o else c :: o))
       else if c =? 91 then                                          (* case '[' *)
         bind (esc_pass (if escaped then brack else brack + 1) false p') (fun o => Ok (c :: o))
       else if c =? 93 then                                          (* case ']' *)
@@ -331,13 +336,16 @@ Fixpoint after_char (ch : N) (s : bytes) : option bytes :=
   | c :: s' => if c =? ch then Some s' else after_char ch s'
   end.
 
-(* for (idx = 0; ublock2urange[idx][0]; ++idx) if (!strncmp(text, name, strlen(name))) break; *)
-Definition block_known (text : bytes) : bool :=
-  existsb (fun e => starts_with (fst e) text) ublock2urange.
+(* for (idx = 0; ublock2urange[idx][0]; ++idx) if (!strncmp(text, name, strlen(name))) break;
+   the first entry whose name is a prefix of the text (defect D4), None = the {NULL, NULL} entry *)
+Definition block_find (text : bytes) : option (bytes * bytes) :=
+  find (fun e => starts_with (fst e) text) ublock2urange.
 
-(* for (idx2 = 0, idx = 0; idx2 < start; ++idx2) ... : the bracket counter over the text before
-   the occurrence; prev = previous byte (0 at the start: no byte before). size_t arithmetic is
-   modelled in Z; wrap-around is detected by the caller as a negative count. *)
+(* for (idx2 = 0, brack = 0; idx2 < start; ++idx2) ... : the bracket counter over the text before
+   the occurrence; prev = previous byte (0 at the start: no byte before). brack is a size_t and
+   --brack at 0 wraps to SIZE_MAX (defined); it is only tested against 0. The counter is modelled
+   in Z: its absolute value is at most the length of the text, which is below 2^64 for a C string,
+   so (count mod 2^64) is 0 exactly when the count is 0. *)
 Fixpoint brk_count (prev : N) (s : bytes) (acc : Z) : Z :=
   match s with
   | [] => acc
@@ -347,8 +355,6 @@ Fixpoint brk_count (prev : N) (s : bytes) (acc : Z) : Z :=
       brk_count c s' acc2
   end.
 
-Definition range_of (idx : Z) : bytes := snd (nth (Z.to_nat idx) ublock2urange ([], [])).
-
 (* one iteration of the while loop: None = no occurrence left *)
 Definition chblocks_step (s : bytes) : option (res bytes) :=
   match find_sub needle s with
@@ -357,14 +363,14 @@ Definition chblocks_step (s : bytes) : option (res bytes) :=
       match after_char 125 at_ with                                  (* strchr(ptr, '}') *)
       | None => Some (Err 2)
       | Some rest =>
-          if negb (block_known (skipn 5 at_)) then Some (Err 3)
-          else
-            let idx := brk_count 0 before 0%Z in
-            if (idx =? 0)%Z then
-              Some (Ok (before ++ firstn URANGE_LEN (range_of idx) ++ rest))
-            else if ((0 <? idx) && (idx <? 84))%Z then
-              Some (Ok (before ++ firstn (URANGE_LEN - 2) (skipn 1 (range_of idx)) ++ rest))
-            else Some (Err 4)
+          match block_find (skipn 5 at_) with
+          | None => Some (Err 3)
+          | Some e =>
+              if (brk_count 0 before 0%Z =? 0)%Z then                (* if (brack) ... else ... *)
+                Some (Ok (before ++ firstn URANGE_LEN (snd e) ++ rest))
+              else
+                Some (Ok (before ++ firstn (URANGE_LEN - 2) (skipn 1 (snd e)) ++ rest))
+          end
       end
   end.
 
@@ -383,25 +389,22 @@ Fixpoint chblocks (fuel : nat) (s : bytes) : res bytes :=
 Definition rewrite (p : bytes) : res bytes :=
   bind (esc_pass 0 false p) (fun q => chblocks (S (length q)) q).
 
-(* ---- Spec: what the rewrite is meant to do (used only by the _refuted theorems) -----------------
-   esc_pass_spec: a backslash is inserted only in front of an UNESCAPED '^' / '$' outside brackets.
-   chblocks_step_spec: the block named between \p{Is and } (exact name) selects the range; the
-   bracket depth only decides whether the range is written with or without its own brackets. *)
-Fixpoint esc_pass_spec (brack : N) (escaped : bool) (p : bytes) : res bytes :=
-  match p with
-  | [] => Ok []
-  | c :: p' =>
-      if c =? 92 then
-        bind (esc_pass_spec brack (negb escaped) p') (fun o => Ok (92 :: o))
-      else if is_anchor c then
-        bind (esc_pass_spec brack false p')
-             (fun o => Ok (if (brack =? 0) && negb escaped then 92 :: c :: o else c :: o))
-      else if c =? 91 then
-        bind (esc_pass_spec (if escaped then brack else brack + 1) false p') (fun o => Ok (c :: o))
-      else if c =? 93 then
-        if (brack =? 0) && negb escaped then Err 1
-        else bind (esc_pass_spec (if escaped then brack else brack - 1) false p') (fun o => Ok (c :: o))
-      else bind (esc_pass_spec brack false p') (fun o => Ok (c :: o))
+(* ---- Spec: what the block rewrite is meant to do -------------------------------------------------
+   The first pass has no separate Spec any more: since 97840a6 esc_pass IS the intended function (a
+   backslash in front of every UNESCAPED '^' / '$' outside brackets); what it does to a pattern is
+   stated independently, on tokens, by RewriteP.rewrite_caret_dollar.
+   chblocks_step_spec: the block named between \p{Is and } (EXACT name) selects the range, the whole
+   replacement text of the table is written, and the bracket depth - counted with the escape
+   tracking of the first pass, depth_spec - decides whether the range keeps its own brackets. *)
+Fixpoint depth_spec (escaped : bool) (s : bytes) (acc : Z) : Z :=
+  match s with
+  | [] => acc
+  | c :: s' =>
+      if c =? 92 then depth_spec (negb escaped) s' acc
+      else if escaped then depth_spec false s' acc
+      else if c =? 91 then depth_spec false s' (acc + 1)%Z
+      else if c =? 93 then depth_spec false s' (acc - 1)%Z
+      else depth_spec false s' acc
   end.
 
 Fixpoint before_char (ch : N) (s : bytes) : bytes :=
@@ -421,7 +424,7 @@ Definition chblocks_step_spec (s : bytes) : option (res bytes) :=
           | None => Some (Err 3)
           | Some e =>
               let rng := snd e in
-              if (brk_count 0 before 0%Z <=? 0)%Z then Some (Ok (before ++ rng ++ rest))
+              if (depth_spec false before 0%Z =? 0)%Z then Some (Ok (before ++ rng ++ rest))
               else Some (Ok (before ++ removelast (skipn 1 rng) ++ rest))
           end
       end
@@ -438,7 +441,24 @@ Fixpoint chblocks_spec (fuel : nat) (s : bytes) : res bytes :=
   end.
 
 Definition rewrite_spec (p : bytes) : res bytes :=
-  bind (esc_pass_spec 0 false p) (fun q => chblocks_spec (S (length q)) q).
+  bind (esc_pass 0 false p) (fun q => chblocks_spec (S (length q)) q).
+
+(* the class of patterns on which the code is proved to be the Spec (RewriteP.rewrite_eq_spec):
+   every occurrence of \p{Is is followed by a name that the lookup of the code resolves to the entry
+   of exactly that name (the text goes on with '}'; this excludes the six names shadowed by an
+   earlier entry that is a prefix of them, D4) and whose replacement text is not cut (D5) *)
+Definition name_exact (text : bytes) : bool :=
+  match block_find text with
+  | Some e => starts_with (fst e ++ [125]) text && (length (snd e) =? URANGE_LEN)%nat
+  | None => false
+  end.
+
+Fixpoint blocks_exact (s : bytes) : bool :=
+  (if starts_with needle s then name_exact (skipn 5 s) else true) &&
+  match s with
+  | [] => true
+  | _ :: s' => blocks_exact s'
+  end.
 
 (* ---- lyplg_type_validate_patterns() (src/plugins_types.c) over an abstract matcher ------------
    code_match c s models ly_pattern_code_match(): Ok true = LY_SUCCESS (match), Ok false = LY_ENOT,
